@@ -1,7 +1,7 @@
 '''C18 - diagnostic statistics count every task / test result exactly once.'''
 import ast
 
-from ..rules import diag
+from ..rules import diag, patterns
 from ..astutil import txt, call_name
 from ..mutate import (Variant, edit_module, find_func, replace_first,
                       remove_stmt, insert_stmt, parse_stmts, parse_expr)
@@ -50,9 +50,10 @@ def check(ctx):
     ctx.run(diag.check_count_shape)
     ctx.run(diag.check_cls_read)
     ctx.run(diag.check_id_unique)
+    ctx.run(patterns.check_patterns, ID)
 
 
-def variants(program):
+def _variants(program):
     out = []
 
     def add(name, kind, editor, expect=None, quick=False, note=''):
@@ -375,3 +376,8 @@ def variants(program):
         ids_from_distinct_names, {'ID-UNIQUE'})
 
     return out
+
+
+def variants(program):
+    from ..variants import patterns as _pv
+    return list(_variants(program)) + _pv.variants(program, ID)
